@@ -298,3 +298,40 @@ def r_level(P, chk):
                                   bad[0], na, show(fa[i3]), nb, show(fb[i3]), len(bad), len(kinds)))
     chk.floor(rid, n_cmp, 2, "closing comparisons between two heading levels in outline writers")
     chk.analysed[rid] = {"comparisons": n_cmp, "heading_kinds": sorted(kinds)}
+
+
+def r_baselevel(P, chk):
+    """The outline writers close the open items at the end of the document by comparing each stacked heading's level
+    (>= 1 + base_header_level - 1) with level 0, and HTML/ODF print the level into the tag name.  All of that presumes a base
+    header level of at least 1; the value comes from metadata (`atoi`), so the store must be range-checked."""
+    from .ub1 import UB1
+    rid = "R-LEVEL/base"
+    chk.rule(rid, "every value stored into base_header_level is a constant >= 1 or has an interval with lower bound >= 1 at the store "
+                  "(interval analysis with branch refinement): document metadata cannot push heading levels to 0 or below")
+    n = 0
+    for f in P.all_funcs:
+        if not P.first_party(f):
+            continue
+        ub = None
+        for x in f.walk():
+            if x["k"] != "BinaryOperator" or x["op"] != "=":
+                continue
+            l = strip(x["c"][0])
+            if l is None or l["k"] != "MemberExpr" or l["n"] != "base_header_level":
+                continue
+            n += 1
+            cv = const_value(x["c"][1])
+            if cv is not None:
+                lo = cv
+            else:
+                ub = ub or UB1(f)
+                iv = ub.interval_at(x["c"][1], at=x)
+                lo = iv[0] if iv is not None else None
+            ok = lo is not None and lo >= 1
+            chk.obligation(rid, "%s %s: `%s` stores a value with lower bound %s" % (f.where(x), f.name, f.src(x)[:60], lo), ok)
+            if not ok:
+                chk.violation(rid, "level:base:%s" % f.name, f.where(x),
+                              "%s stores `%s` (lower bound %s) into base_header_level: with `Base Header Level: -3` every heading "
+                              "level is negative, the OPML/ITMZ writers' end-of-document test `t_level >= 0` never closes the open "
+                              "<outline> elements and the output is not well-formed" % (f.name, f.src(x["c"][1])[:40], lo))
+    chk.floor(rid, n, 2, "stores into base_header_level")
